@@ -255,6 +255,7 @@ type UnitOpts struct {
 	SkipEnsures   map[string]bool
 	NameSuffix    string
 	Trace         bool // record call/store/alloc events for per-case obligations
+	TypeRename    [2]string // resolve type names in contracts with this prefix replaced (contracts reused for a sibling package)
 	Setup         func(ex *Exec, fr *frame, st *State)
 	AtExit        func(ex *Exec, fr *frame, g string, st *State, res []Val)
 }
@@ -331,6 +332,7 @@ func (p *Program) verifyFuncOnce(key string, opts *UnitOpts, prereg map[string]s
 	ex := p.newExec(shortKey(key) + opts.NameSuffix)
 	ex.unitSuffix = opts.NameSuffix
 	ex.traceOn = opts.Trace
+	ex.typeRename = opts.TypeRename
 	ex.enteredPrev = entered
 	ex.topContract = fc
 	ex.entered = map[int]bool{}
@@ -849,10 +851,24 @@ func runObligations(units []*Unit, ro RunOpts) []*OblResult {
 				if first.Verdict != Unknown || to <= q {
 					return first
 				}
-				slots.acquire(4)
-				rest := runSolvers(f, z, to, ro.Seed, nil)
-				slots.release(4)
-				rest.Ms += first.Ms
+				// the race of all back ends, then again under two other seeds: a query that is hard under one
+				// seed and easy under another must not raise an alarm
+				total := first.Ms
+				var rest SolverResult
+				for try, sd := range []int{ro.Seed, ro.Seed + 7, ro.Seed + 13} {
+					tt := to
+					if try > 0 {
+						tt = to / 2
+					}
+					slots.acquire(4)
+					rest = runSolvers(f, z, tt, sd, nil)
+					slots.release(4)
+					total += rest.Ms
+					if rest.Verdict != Unknown {
+						break
+					}
+				}
+				rest.Ms = total
 				return rest
 			}
 			if j.o.Expect == Sat {
